@@ -5,6 +5,7 @@ import (
 	"flag"
 	"fmt"
 	"strings"
+	"sync"
 
 	"github.com/mit-pdos/go-journal/common"
 	"github.com/mit-pdos/go-nfsd/kvs"
@@ -114,4 +115,82 @@ func cmdKvs(fs *flag.FlagSet, args []string) {
 		}
 		store.Delete()
 	}
+}
+
+// cmdKvsConc: concurrent overlapping multi-puts (C18, linearizability).  Each round starts from a
+// state established sequentially, runs a few MultiPuts at the same time — over the same few keys,
+// with values from a three-letter alphabet so that a put often rewrites the value a key already
+// holds — and then reads every key.  The Lean driver demands that SOME order of the puts, applied
+// by the model to the start state, yields exactly the state read.
+func cmdKvsConc(fs *flag.FlagSet, args []string) {
+	seed := fs.Uint64("seed", 1, "seed")
+	rounds := fs.Int("rounds", 400, "rounds")
+	fs.Parse(args)
+	r := NewRng(*seed)
+	sz := uint64(2000)
+	d := NewSparseDisk(sz)
+	store := kvs.MkKVS(d, sz)
+	emit("kinit %d", sz)
+	keys := []uint64{common.LOGSIZE, common.LOGSIZE + 1, common.LOGSIZE + 2}
+	val := func(b byte) []byte { return kvBlock(b, 0) }
+	for rd := 0; rd < *rounds; rd++ {
+		var s0 []kvs.KVPair
+		var s0t []string
+		for _, k := range keys {
+			b := byte(65 + r.Intn(3))
+			s0 = append(s0, kvs.KVPair{Key: k, Val: val(b)})
+			s0t = append(s0t, fmt.Sprintf("%d:%d.0", k, b))
+		}
+		if !store.MultiPut(s0) {
+			die("kvsconc: setup put refused")
+		}
+		n := 2 + r.Intn(3)
+		puts := make([][]kvs.KVPair, n)
+		var pt []string
+		for i := 0; i < n; i++ {
+			m := 2 + r.Intn(2)
+			var toks []string
+			perm := []int{0, 1, 2}
+			for j := 2; j > 0; j-- {
+				x := r.Intn(j + 1)
+				perm[j], perm[x] = perm[x], perm[j]
+			}
+			for j := 0; j < m; j++ {
+				k := keys[perm[j]]
+				b := byte(65 + r.Intn(3))
+				puts[i] = append(puts[i], kvs.KVPair{Key: k, Val: val(b)})
+				toks = append(toks, fmt.Sprintf("%d:%d.0", k, b))
+			}
+			pt = append(pt, strings.Join(toks, ","))
+		}
+		var wg sync.WaitGroup
+		start := make(chan bool)
+		oks := make([]bool, n)
+		for i := 0; i < n; i++ {
+			wg.Add(1)
+			go func(i int) {
+				defer wg.Done()
+				defer func() { recover() }()
+				<-start
+				oks[i] = store.MultiPut(puts[i])
+			}(i)
+		}
+		close(start)
+		wg.Wait()
+		var fin []string
+		for _, k := range keys {
+			p, _ := store.Get(k)
+			fin = append(fin, fmt.Sprintf("%d:%s", k, kvDecode(p.Val)))
+		}
+		allOk := true
+		for _, o := range oks {
+			allOk = allOk && o
+		}
+		if !allOk {
+			emit("# ORACLE C18 concurrent-put-refused a %d-pair MultiPut was refused or panicked in a concurrent round", 3)
+			continue
+		}
+		emit("kround %s | %s => %s", strings.Join(s0t, ","), strings.Join(pt, " | "), strings.Join(fin, ","))
+	}
+	store.Delete()
 }
